@@ -16,6 +16,16 @@ CHECKS = [
         "persistent receive buffer. Does not decide that valid lines decode correctly, nor frame equality over all read partitions (values).",
         "note": BASE_NOTE,
     },
+    {
+        "id": "C13",
+        "technique": "static analysis: bracket pairing on all exits over a CFG with exceptional and cancellation edges; restricted exception-effect closure; single-writer and dominance rules",
+        "text": "Decides that every path from Engine._pause() to any exit of Gateway.get_state/_restore_cached_packets (normal, exceptional, "
+        "cancellation at each await) passes _resume(); that no public view (schema/params/status/traits/known_list/fault-log views, 59 "
+        "properties) can raise ArithmeticError or a KeyError from a payload-derived key; that the fault-log map only holds timestamps present "
+        "in the log; and that the gateway's message handlers and process_msg are fenced with entity handlers deferred. Does not decide "
+        "'every view after every history' beyond these classes, nor that foreign traffic never alters tracked state (behavioural).",
+        "note": BASE_NOTE + " datetime within 10 years of datetime.min/max is outside the model for this property.",
+    },
 ]
 
 NOT_APPLICABLE = [
